@@ -52,8 +52,15 @@ func (w *c13World) c13MintOK(app, asset uint64, amt sdk.Int, burn bool) bool {
 // time past the auction's end; then TriggerEsm as AuctionIterator calls it (fresh auction and locked
 // vault records), [times] times on the same auction (it deletes neither).
 func (w *c13World) c13TriggerEsmFlow(app, out uint64, collIn int64, bidPct int64, times int) {
+	w.c13TriggerEsmFlowOn(app, out, collIn, bidPct, times, false)
+}
+
+func (w *c13World) c13TriggerEsmFlowOn(app, out uint64, collIn int64, bidPct int64, times int, zeroFee bool) {
 	a := w.a
 	ep := w.ep[[2]uint64{app, out}]
+	if zeroFee {
+		ep = c13Epz[[2]uint64{app, out}]
+	}
 	in := sdk.NewInt(collIn)
 	class := w.c13Vault("create", app, out, vaulttypes.NewMsgCreateRequest(w.vuser, app, ep, in, in))
 	w.c13Obs()
@@ -408,7 +415,7 @@ func (w *c13World) c13BOp(r *rng) {
 		if r.chance(35) {
 			times = 2
 		}
-		w.c13TriggerEsmFlow(app, asset, int64(2+r.intn(40))*1000000, r.pickI(0, 0, 3, 10, 30, 60, 95), times)
+		w.c13TriggerEsmFlowOn(app, asset, int64(2+r.intn(40))*1000000, r.pickI(0, 0, 3, 10, 30, 60, 95), times, r.chance(45))
 		if r.chance(60) {
 			w.c13Obs()
 			w.c13SetEsm(app, false)
